@@ -3,7 +3,7 @@
    panic. *)
 From Coq Require Import List Arith Bool Lia.
 Import ListNotations.
-Require Import ScanFull InstsFull ObligMZ C08Merge.
+Require Import ScanFull InstsFull ObligMZ C08Merge Counting.
 
 Lemma z_cases s i a :
   match a with
@@ -16,6 +16,11 @@ Lemma z_cases s i a :
   | _ => z_handle s i a = (s, Cont, [])
   end.
 Proof. destruct a as [|r|v| |]; reflexivity. Qed.
+
+Lemma out_eq_none' (o: out) : {o = ONone} + {o <> ONone}.
+Proof. destruct o; [right|right|right|right|right|left]; try discriminate; reflexivity. Qed.
+Lemma results_In' t o : In o (results t) -> In (EEndR o) t.
+Proof. induction t as [|e t IH]; cbn; [auto|]. destruct e; cbn; try (intros H; right; apply IH, H). intros [<-|H]; [left; reflexivity|right; apply IH, H]. Qed.
 
 Section ZipLive.
   Variable scs : list (list step).
@@ -141,6 +146,149 @@ Section ZipLive.
       pose proof (PWz_run ops w0 PWz_init) as [Hl0 _]. assert (Hj' : j < n) by (rewrite <- Hl0; exact Hj). specialize (Hm Hd' j Hj'). unfold rem.
       destruct (nth j (scripts zst (zrounds r (zrun w0 ops))) []); [discriminate|cbn; lia].
     - intros s HQ HT. apply TSz_some; auto.
+  Qed.
+  (* ---- the zipped stream ends: None is returned once an input has ended ---- *)
+  Hypothesis Hn : 0 < n.
+  Definition buf0 (s: zst) : nat := if is_ready (nth 0 (z_pst s) PReady) then 1 else 0.
+  (* Jz: between any two steps the current row is incomplete, and an input has ended only if None has been returned *)
+  Definition Jz (s: zst) (rs: list out) : Prop := length (z_pst s) = n /\ forallb is_ready (z_pst s) = false /\ (z_done s = true -> In ONone rs).
+  (* items of input 0 still scripted + its buffered item + rows returned is invariant; N0 a lower bound on the rows; B a bound on every script length *)
+  Definition Rz (C N0 B: nat) (s: zst) (sc: list (list step)) (rs: list out) : Prop :=
+    Jz s rs /\ nitems (nth 0 sc []) + buf0 s + nsome rs = C /\ N0 <= nsome rs /\ forall k, length (nth k sc []) <= B.
+  Lemma forallb_reset (l: list pstate) : l <> [] -> forallb is_ready (map (fun _ => PPending) l) = false.
+  Proof. destruct l; [contradiction|reflexivity]. Qed.
+  Lemma all_ready_nth l j : forallb is_ready l = true -> is_ready (nth j l PReady) = true.
+  Proof. intros H. destruct (Nat.lt_ge_cases j (length l)) as [L|G]; [|rewrite nth_overflow by exact G; reflexivity]. rewrite forallb_forall in H. apply H, nth_In, L. Qed.
+  Section ZDrain.
+    Variables C N0 B : nat.
+    Lemma Rz_step s sc rs i stp sc' s' a e : z_awaited s i = true -> i < z_n s -> (stp, sc') = popped_of zst (fun _ i => i) s sc i ->
+      Rz C N0 B s sc rs -> z_handle s i (answer stp) = (s', a, e) ->
+      match a with Cont => Rz C N0 B s' sc' rs | Stop r o => Rz C N0 B s' sc' (rs ++ [o]) | Abort => Rz C N0 B s sc' rs end.
+    Proof.
+      intros Ha Hi E ((Hl & Hf & Hdn) & Hc & Hlo & Hb) Eh. unfold Jz. change (popped_of zst (fun _ i => i) s sc i) with (pop_at sc i) in E.
+      pose proof (pop_at_len sc i B Hb) as Hl'. rewrite <- E in Hl'. cbn [snd] in Hl'.
+      assert (H0 : nitems (nth 0 sc' []) + (if i =? 0 then match answer stp with AItem _ => 1 | _ => 0 end else 0) = nitems (nth 0 sc [])).
+      { destruct (Nat.eqb_spec i 0) as [->|Hne]; [pose proof (pop_at_self sc 0) as X; rewrite <- E in X; exact X|].
+        pose proof (pop_at_other sc i 0 ltac:(lia)) as X. rewrite <- E in X. cbn [snd] in X. rewrite X. lia. }
+      assert (Hnr0 : i = 0 -> buf0 s = 0).
+      { intros ->. unfold buf0. unfold z_awaited in Ha. apply negb_true_iff in Ha. rewrite Ha. reflexivity. }
+      assert (Hne : z_pst s <> []) by (intros X; rewrite X in Hl; cbn in Hl; lia).
+      pose proof (z_cases s i (answer stp)) as X. cbn zeta in X. unfold z_n in Hi.
+      destruct (answer stp) as [|r|v| |] eqn:Ea; rewrite X in Eh.
+      - inversion Eh; subst s' a e; unfold Rz; cbn beta iota. split; [split; [exact Hl|split; [exact Hf|exact Hdn]]|]. split; [destruct (i =? 0); lia|]. split; [exact Hlo|exact Hl'].
+      - inversion Eh; subst s' a e; unfold Rz; cbn beta iota. split; [split; [exact Hl|split; [exact Hf|exact Hdn]]|]. split; [destruct (i =? 0); lia|]. split; [exact Hlo|exact Hl'].
+      - destruct (forallb is_ready (upd (z_pst s) i PReady)) eqn:Er; inversion Eh; subst s' a e; unfold Rz; cbn beta iota.
+        + (* the row is complete: returned, every input awaited again *)
+          rewrite nsome_app. split; [split; [cbn; rewrite map_length, upd_length; exact Hl|split; [cbn; apply forallb_reset; intros Y; apply Hne; destruct (z_pst s); [reflexivity|destruct i; discriminate]|cbn; intros D; apply in_or_app; left; apply Hdn, D]]|].
+          assert (Hb0 : buf0 {| z_pst := map (fun _ => PPending) (upd (z_pst s) i PReady); z_out := map (fun _ => None) (upd (z_out s) i (Some v)); z_done := z_done s |} = 0).
+          { unfold buf0. cbn [z_pst]. destruct (z_pst s) as [|p l]; [contradiction|]. destruct i; reflexivity. }
+          rewrite Hb0. replace (nsome [OSome None (all_vals (upd (z_out s) i (Some v)))]) with 1 by reflexivity. split; [|split; [lia|exact Hl']].
+          destruct (Nat.eqb_spec i 0) as [->|Hi0]; [rewrite (Hnr0 eq_refl) in Hc; lia|].
+          assert (Hb1 : buf0 s = 1).
+          { unfold buf0. pose proof (all_ready_nth _ 0 Er) as Y. rewrite nth_upd_other in Y by auto. rewrite Y. reflexivity. }
+          lia.
+        + split; [split; [cbn; rewrite upd_length; exact Hl|split; [exact Er|exact Hdn]]|]. split; [|split; [exact Hlo|exact Hl']].
+          destruct (Nat.eqb_spec i 0) as [->|Hi0].
+          * rewrite (Hnr0 eq_refl) in Hc. unfold buf0. cbn [z_pst]. rewrite nth_upd_same by lia. cbn. lia.
+          * unfold buf0 in *. cbn [z_pst]. rewrite nth_upd_other by auto. lia.
+      - inversion Eh; subst s' a e; unfold Rz; cbn beta iota. rewrite nsome_app. split; [split; [exact Hl|split; [exact Hf|intros _; apply in_or_app; right; left; reflexivity]]|].
+        unfold buf0 in *. cbn [z_pst]. replace (nsome [ONone]) with 0 by reflexivity. split; [destruct (i =? 0); lia|]. split; [lia|exact Hl'].
+      - inversion Eh; subst s' a e; unfold Rz; cbn beta iota. split; [split; [exact Hl|split; [exact Hf|exact Hdn]]|]. split; [destruct (i =? 0); lia|]. split; [exact Hlo|exact Hl'].
+    Qed.
+    Lemma Rz_cont s sc rs i stp sc' s' e : z_awaited s i = true -> i < z_n s -> (stp, sc') = popped_of zst (fun _ i => i) s sc i ->
+      Rz C N0 B s sc rs -> z_handle s i (answer stp) = (s', Cont, e) -> Rz C N0 B s' sc' rs.
+    Proof. intros Ha Hi E HR Eh. exact (Rz_step s sc rs i stp sc' s' Cont e Ha Hi E HR Eh). Qed.
+    Lemma Rz_stop s sc rs i stp sc' s' r o e : z_awaited s i = true -> i < z_n s -> (stp, sc') = popped_of zst (fun _ i => i) s sc i ->
+      Rz C N0 B s sc rs -> z_handle s i (answer stp) = (s', Stop r o, e) -> Rz C N0 B s' sc' (rs ++ [o]).
+    Proof. intros Ha Hi E HR Eh. exact (Rz_step s sc rs i stp sc' s' (Stop r o) e Ha Hi E HR Eh). Qed.
+    Lemma Rz_abort s sc rs i stp sc' s' e : z_awaited s i = true -> i < z_n s -> (stp, sc') = popped_of zst (fun _ i => i) s sc i ->
+      Rz C N0 B s sc rs -> z_handle s i (answer stp) = (s', Abort, e) -> Rz C N0 B s sc' rs.
+    Proof. intros Ha Hi E HR Eh. exact (Rz_step s sc rs i stp sc' s' Abort e Ha Hi E HR Eh). Qed.
+    Lemma Rz_order s is s1 sc rs : z_order s = Some (is, s1) -> Rz C N0 B s sc rs -> Rz C N0 B s1 sc rs.
+    Proof. intros E H. destruct (z_order_some _ _ _ E) as [_ ->]. exact H. Qed.
+  End ZDrain.
+
+  Lemma z_hnores s i a : no_results (snd (z_handle s i a)).
+  Proof. pose proof (z_cases s i a) as X. cbn zeta in X. destruct a as [|r|v| |]; rewrite X; try reflexivity. destruct (forallb _ _); reflexivity. Qed.
+  Lemma drop_vals_nores ps its : results (drop_vals ps its) = [].
+  Proof. revert its. induction ps as [|p ps IH]; intros [|[v|] its]; cbn; auto; destruct p; cbn; auto. Qed.
+  Lemma z_dnores s : no_results (z_drop s).
+  Proof. unfold no_results, z_drop. rewrite results_app, drop_vals_nores. unfold drop_all_children. induction (seq 0 (z_n s)); cbn; auto. Qed.
+  Lemma Rz_run C N0 B ops : forall w, Rz C N0 B (cs _ w) (scripts _ w) (results (tr _ w)) ->
+    Rz C N0 B (cs _ (zrun w ops)) (scripts _ (zrun w ops)) (results (tr _ (zrun w ops))).
+  Proof.
+    apply (RW_run zst z_n z_awaited (fun _ i => i) z_handle false true z_order (fun _ => None) (fun _ => false) z_finish (fun s => s) z_drop m_final z_Q
+           Z1 Z8 (fun _ _ _ _ _ _ => I) Z10 Z12 zmut (Rz C N0 B) (Rz_cont C N0 B) (Rz_stop C N0 B) (Rz_abort C N0 B) (Rz_order C N0 B)
+           (fun _ _ _ H => H) (fun s sc rs o _ (E: None = Some o) => match E with end) (fun _ _ _ _ => I) z_hnores z_dnores (fun w _ _ _ H => H) ops).
+  Qed.
+  Lemma zrun_app w a b : zrun (zrun w a) b = zrun w (a ++ b).
+  Proof. unfold run_ops. rewrite fold_left_app. reflexivity. Qed.
+  Lemma Jz_run ops : Jz (cs _ (zrun w0 ops)) (results (tr _ (zrun w0 ops))).
+  Proof.
+    pose proof (Rz_run (nitems (nth 0 scs [])) 0 (list_max (map (@length step) scs)) ops w0) as H. apply H.
+    assert (Hpos : exists m, length scs = S m) by (exists (length scs - 1); unfold n in Hn; lia). destruct Hpos as [m Em].
+    unfold Rz, Jz, buf0, w0, mk_world. cbn [cs scripts tr z_pst z_done results flat_map]. rewrite repeat_length. unfold n. rewrite Em.
+    cbn [repeat nth forallb is_ready andb]. split; [split; [reflexivity|split; [reflexivity|discriminate]]|].
+    split; [unfold nsome; cbn; lia|]. split; [lia|].
+    intros k. destruct (Nat.lt_ge_cases k (length scs)) as [L|G]; [|rewrite nth_overflow by exact G; cbn; lia].
+    pose proof (proj1 (list_max_le (map (@length step) scs) (list_max (map (@length step) scs))) (Nat.le_refl _)) as Hle.
+    rewrite Forall_forall in Hle. apply Hle. apply in_map. apply nth_In. exact L.
+  Qed.
+
+  (* after any history, while it has not been dropped: within (k + 1) * B rounds the zipped stream has returned None - k the number of items input 0
+     has still scripted, plus one if its item for the current row is buffered, B any bound on the remaining script lengths *)
+  Theorem zip_ends B : 1 <= B -> forall k ops, let w := zrun w0 ops in
+    finished _ w = false -> dropped _ w = false -> nitems (nth 0 (scripts _ w) []) + buf0 (cs _ w) <= k -> (forall j, length (nth j (scripts _ w) []) <= B) ->
+    exists R, R <= (k + 1) * B /\ let w' := zrounds R w in
+      dropped _ w' = false /\ In (EEndR ONone) (tr _ w') /\ exists ops', w' = zrun w0 ops'.
+  Proof.
+    intros HB1. induction k as [|k IH]; intros ops w Hf Hd Hk HB;
+      pose proof (Jz_run ops) as HJ; fold w in HJ; pose proof HJ as (HJl & HJf & HJd);
+      (destruct (z_done (cs _ w)) eqn:Edn;
+        [exists 0; split; [lia|]; cbn [rounds]; split; [exact Hd|]; split; [apply results_In', HJd; reflexivity|exists ops; reflexivity]|]);
+      destruct (zip_next_result ops B Hf Hd Edn HJf HB HB1) as (r & Hr & Hd1 & _ & Hfin & u & o & Hu); fold w in Hd1, Hfin, Hu;
+      destruct (rounds_is_run zst z_n z_awaited (fun _ i => i) z_handle false true z_order (fun _ => None) (fun _ => false) z_finish (fun s => s) z_drop m_final zmut (S r) w) as [ops1 E1];
+      destruct (rounds_is_run zst z_n z_awaited (fun _ i => i) z_handle false true z_order (fun _ => None) (fun _ => false) z_finish (fun s => s) z_drop m_final zmut r w) as [opsr Er];
+      set (C := nitems (nth 0 (scripts _ w) []) + buf0 (cs _ w) + nsome (results (tr _ w))); set (N0 := nsome (results (tr _ w)));
+      (assert (HR0 : Rz C N0 B (cs _ w) (scripts _ w) (results (tr _ w))) by (split; [exact HJ|split; [reflexivity|split; [apply Nat.le_refl|exact HB]]]));
+      pose proof (Rz_run C N0 B ops1 w HR0) as HR1; rewrite <- E1 in HR1; pose proof (Rz_run C N0 B opsr w HR0) as HRr; rewrite <- Er in HRr;
+      destruct HR1 as (_ & Hc1 & _ & Hb1); destruct HRr as (_ & _ & Hlor & _);
+      rewrite Hu, !results_app, !nsome_app in Hc1; cbn [results flat_map] in Hc1;
+      (assert (Hreach : zrounds (S r) w = zrun w0 (ops ++ ops1)) by (rewrite E1; unfold w; apply zrun_app));
+      (destruct (out_eq_none' o) as [->|Hno];
+        [exists (S r); split; [nia|]; cbv zeta; split; [exact Hd1|]; split; [rewrite Hu; apply in_or_app; right; apply in_or_app; right; left; reflexivity|exists (ops ++ ops1); exact Hreach]|]);
+      (assert (Hns : nsome [o] = 1) by (destruct o; try reflexivity; exfalso; apply Hno; reflexivity));
+      (assert (Hlt : nitems (nth 0 (scripts _ (zrounds (S r) w)) []) + buf0 (cs _ (zrounds (S r) w)) < nitems (nth 0 (scripts _ w) []) + buf0 (cs _ w)) by (unfold C, N0 in *; rewrite Hns in Hc1; lia)).
+    - lia.
+    - assert (Hf1 : finished _ (zrounds (S r) w) = false).
+      { rewrite rounds_S.
+        assert (Ewr : zrounds r w = zrun w0 (ops ++ opsr)) by (rewrite Er; unfold w; apply zrun_app).
+        assert (Hcases : finished _ (round zst z_n z_awaited (fun _ i => i) z_handle false true z_order (fun _ => None) (fun _ => false) z_finish (fun s => s) z_drop m_final zmut (zrounds r w)) = false \/
+                         exists u' o', m_final o' = true /\ tr _ (round zst z_n z_awaited (fun _ i => i) z_handle false true z_order (fun _ => None) (fun _ => false) z_finish (fun s => s) z_drop m_final zmut (zrounds r w)) = tr _ (zrounds r w) ++ u' ++ [EEndR o']).
+        { eapply (round_finished_cases zst z_n z_awaited (fun _ i => i) z_handle false true z_order (fun _ => None) (fun _ => false) z_finish (fun s => s) z_drop m_final z_Q)
+            with (occ := fun _ _ => true) (nmem := z_n) (okans := fun a => a <> APanic) (US := TSz);
+            try first [exact Z1|exact Z2|exact Z3|exact Z4|exact Z5|exact Z6|exact Z7|exact Z8|exact Z10|exact Z11|exact Z12|exact Z13
+                      |exact (fun _ _ _ _ _ _ => I)|exact (fun _ _ _ _ _ => I)|exact (fun _ _ => I)|exact (fun _ H => H)
+                      |exact (fun _ => eq_refl)|exact (fun _ _ _ => eq_refl)|exact (fun w _ _ _ H => H)|exact (fun _ _ _ _ _ => eq_refl)
+                      |exact (fun _ _ _ _ _ _ _ _ H => H)|exact (fun _ _ _ H _ => H)|exact (fun s i a _ _ _ => conj (Z1 s i a) (fun _ _ _ => conj eq_refl eq_refl))
+                      |exact (fun s is s1 _ E => conj (Z10 s is s1 E) (fun _ _ _ => conj eq_refl eq_refl))|exact (fun s _ => conj eq_refl (fun _ _ _ => conj eq_refl eq_refl))
+                      |exact z_abort_panic|exact APend_not_panic|exact (fun s i a s' e _ _ _ => USz_cont s i a s' e)].
+          all: first [rewrite Ewr; apply zip_Inv_run | rewrite Ewr; apply zip_LiveI_run | apply Hfin; lia | rewrite <- rounds_S; exact Hd1 | idtac].
+          destruct (dropped _ (zrounds r w)) eqn:Edr; [|reflexivity]. exfalso.
+          pose proof (round_dropped zst z_n z_awaited (fun _ i => i) z_handle false true z_order (fun _ => None) (fun _ => false) z_finish (fun s => s) z_drop m_final zmut (zrounds r w) Edr) as X.
+          rewrite <- rounds_S in X. congruence. }
+        destruct Hcases as [X|(u' & o' & Ho' & Hu')]; [exact X|].
+        exfalso. rewrite <- rounds_S, Hu in Hu'. apply app_inv_head in Hu'.
+        assert (E' : last (u ++ [EEndR o]) EO = last (u' ++ [EEndR o']) EO) by (rewrite Hu'; reflexivity). rewrite !last_last in E'. inversion E'; subst o'.
+        apply Hno. destruct o; discriminate. }
+      destruct (IH (ops ++ ops1)) as (R & HRb & Hd2 & Hin2 & ops' & Ho').
+      + rewrite <- Hreach. exact Hf1.
+      + rewrite <- Hreach. exact Hd1.
+      + rewrite <- Hreach. lia.
+      + rewrite <- Hreach. exact Hb1.
+      + rewrite <- Hreach in *. exists (S r + R). split; [nia|]. cbv zeta.
+        rewrite (rounds_add zst z_n z_awaited (fun _ i => i) z_handle false true z_order (fun _ => None) (fun _ => false) z_finish (fun s => s) z_drop m_final zmut (S r) R w).
+        split; [exact Hd2|]. split; [exact Hin2|]. exists ops'. exact Ho'.
   Qed.
 End ZipLive.
 Print Assumptions zip_next_result.
